@@ -4,7 +4,7 @@
    queue, one retry iteration in atomic actions, compaction cap; every commit takes an environment choice).
    A label list is an arbitrary interleaving of all of these, with arbitrary fault placements. *)
 From KB Require Import Base.Cases Model.RetrySys Model.C09Cases
-  Proofs.RetryBase Proofs.RetryInv1 Proofs.RetryInv2 Proofs.RetryProps Proofs.RetryInv3 Proofs.RetryInvX Proofs.RetryAck Proofs.C09Cases Proofs.RetryWitness.
+  Proofs.RetryBase Proofs.RetryInv1 Proofs.RetryInv2 Proofs.RetryProps Proofs.RetryInv3 Proofs.RetryInvX Proofs.RetryAck Proofs.C09Cases Proofs.C09Sim Proofs.RetryWitness.
 Local Open Scope N_scope.
 
 (* ---------- error class ---------- *)
@@ -137,8 +137,9 @@ Proof. exact oracle_on_model. Qed.
    On a case that passed the check (the recorded observation IS the model's observation of the script) three of the
    oracle's clauses are theorems; c09_oracle c = None needs three more (see props/C09.json "gaps").
    c09_valid c: every script step is inside the stated assumptions (not step_outside; no repair commit answered with a bare
-   abort), and — the one link that is checked per case (c09_validb, executable) instead of proved for all scripts — wherever
-   the oracle's bookkeeping over observations regards a List as drained, the model state is quiescent. *)
+   abort) — nothing else. c09_check c = true: the recorded observation and events are the model's, and (evaluated per case on
+   every run, part of the check since it is not yet a theorem for all scripts) wherever the oracle's bookkeeping over
+   observations regards a List as drained the model state is quiescent (drained_quiescent). *)
 Theorem C09_oracle_clause_class : forall c,
   Forall dstep_wf (c_script c) -> c09_check c = true -> forallb class_ok (c_obs c) = true.
 Proof. exact oracle_clause_class. Qed.
@@ -154,6 +155,18 @@ Theorem C09_oracle_clause_converges : forall c,
   c09_valid c -> c09_check c = true -> cs_conv (conv_of c) = true.
 Proof. exact oracle_clause_converges. Qed.
 Print Assumptions C09_oracle_clause_converges.
+
+(* (2,3) bookkeeping: every Compact header is below every unresolved revision the oracle reconstructs from the observation
+   (the retry queue followed by the unknown events still in their slots or with the sequencer) and at most the committed
+   revision. Proved through a simulation between the oracle's book and the model state over all eight macro steps. *)
+Theorem C09_oracle_clause_book : forall c, c09_valid c -> c09_check c = true -> bk_ok (book_of c) = true.
+Proof. exact oracle_clause_book. Qed.
+Print Assumptions C09_oracle_clause_book.
+
+(* the link c09_check also evaluates per case is a theorem for every well-formed script *)
+Theorem C09_oracle_drained_quiescent : forall ds, Forall dstep_wf ds -> drained_quiescent minit book0 ds = true.
+Proof. exact drained_quiescent_holds. Qed.
+Print Assumptions C09_oracle_drained_quiescent.
 
 Theorem C09_oracle_valid_decidable : forall c, c09_validb c = true -> c09_valid c.
 Proof. exact c09_validb_spec. Qed.
